@@ -12,7 +12,11 @@ The model follows the code *after* the `fix:` commits recorded in known/C02.json
   * Route.match / RoutePatternMatch: a route that declares parameters matches only through
     `getMatch` (no literal / prefix fallback);
   * findParamLen: the "no slash inside a non-greedy parameter" rule also in the one-byte-delimiter
-    branch and in the one-character (adjacent parameters) rule.
+    branch and in the one-character (adjacent parameters) rule;
+  * findParamLen(s, segment, following) (a47187c, C03's former K1): when the path holds the following
+    constant in full and that is longer than `ComparePart` (= it has trailing slashes), the full
+    constant is searched for, `PartCount` is recounted for it and a greedy parameter searches from
+    the right: `fullConst` / `paramLen`; `findParamLen` below is the function on the locals.
 
 Go slice expressions that can panic (registration-time only) are modelled with `Option`:
 `none` = the real code panics while registering the pattern.
@@ -666,8 +670,10 @@ def findGreedyLoop (cp : Bytes) : Nat → Nat → Bytes → Bytes
 def findGreedyParamLen (s : Bytes) (searchCount : Nat) (seg : Seg) : Nat :=
   (findGreedyLoop seg.comparePart seg.partCount searchCount s).length
 
-/-- path.go `findParamLen` (with the slash rule of commit "named route parameters never span a
-    slash" in the one-character and one-byte-delimiter branches). -/
+/-- path.go `findParamLen` on the locals `comparePart, partCount` (= the fields of `seg`; the two
+    early returns included), with the slash rule of commit "named route parameters never span a
+    slash" in the one-character and one-byte-delimiter branches. `paramLen` below is the function
+    `getMatch` calls. -/
 def findParamLen (s : Bytes) (seg : Seg) : Nat :=
   if seg.isLast then findParamLenForLastSegment s seg
   else if seg.length != 0 && s.length ≥ seg.length then
@@ -682,6 +688,33 @@ def findParamLen (s : Bytes) (seg : Seg) : Nat :=
     match indexOf s seg.comparePart with
     | some k => if !seg.isGreedy && (s.take k).contains SLASH then 0 else k
     | none => s.length
+
+/-- path.go `findParamLen`, the locals `comparePart, partCount` (commit "a parameter in front of a
+    constant with trailing slashes ends at that constant in full when the path holds it"):
+    `ComparePart` is the following constant without its trailing slashes, because a trailing slash
+    can be optional; when the path holds the following constant *in full* (`strings.Contains`), the
+    full constant is searched for and `partCount` is recounted for it over the following constants.
+    `some seg'` = replaced (`full = true`; `seg'` is `seg` with the two locals as fields),
+    `none` = not replaced – also when one of the two early returns (`IsLast`, `Length`) fires before
+    the locals are set. -/
+def fullConst (s : Bytes) (seg : Seg) (following : List Seg) : Option Seg :=
+  if seg.isLast || (seg.length != 0 && s.length ≥ seg.length) then none
+  else
+    match following with
+    | n :: _ =>
+      if n.const.length > seg.comparePart.length && (indexOf s n.const).isSome then
+        some { seg with comparePart := n.const, partCount := partCountOf n.const following }
+      else none
+    | [] => none
+
+/-- path.go `findParamLen(s, segment, following)`: with the full constant a greedy parameter always
+    searches from the right (`searchCount > 1 || full`), everything else is `findParamLen` on the
+    locals. -/
+def paramLen (s : Bytes) (seg : Seg) (following : List Seg) : Nat :=
+  match fullConst s seg following with
+  | none => findParamLen s seg
+  | some seg' =>
+    if seg.isGreedy then findGreedyParamLen s (count s seg'.comparePart) seg' else findParamLen s seg'
 
 /-- path.go `getMatch`. `det` = detection path, `path` = user-visible path (values are slices of
     it at the offsets found on `det`), `partialCheck` = middleware (prefix) match.
@@ -700,7 +733,7 @@ def getMatch (chk : Constraint → Bytes → Bool) : List Seg → Bytes → Byte
          else getMatch chk rest det path partialCheck)
       else none
     else
-      let i := findParamLen det seg
+      let i := paramLen det seg rest
       if !seg.isOptional && i == 0 then none
       else
         let v := path.take i
